@@ -19,28 +19,29 @@ import (
 
 // SeqScenario is a sequential (single producer, lock-step) scenario for any query kind.
 type SeqScenario struct {
-	Tr     int               `json:"tr"`
-	Meta   map[string]any    `json:"meta"` // copied onto the reset line for the TLA+ monitor
-	SQL    string            `json:"sql"`
-	Mode   string            `json:"mode"`    // emit (default) | sync
-	Rows   []map[string]any  `json:"rows"`    // typed input rows (see Decode)
-	MaxPar int               `json:"maxpart"` // WithAnalyticMaxPartitions when > 0
-	Chan   bool              `json:"chan"`    // also read ToChannel()
-	Stop   bool              `json:"stop"`    // call Stop before the quiesce event (CEP flush)
-	Sort   string            `json:"sort"`    // sort delivered rows of a batch by this column (when the statement leaves order open)
-	Tables []SeqTable        `json:"tables"`
-	Burst  bool              `json:"burst"`      // emit every row without waiting in between (ordering / conservation); quiesce once at the end
-	Hold   string            `json:"hold"`       // burst only: name of a hook point at which the engine goroutine is held until every row has been handed in
-	Perf   *SeqPerf          `json:"perf"`       // custom performance configuration
-	Ops    []SeqOp           `json:"ops"`        // optional explicit operation list (JOIN scenarios); when empty: emit every row
-	GapMs  int64             `json:"gap_ms"`     // STATETTL scenarios: real-time pause before every row
-	TTLMs  int64             `json:"ttl_ms"`     // STATETTL of the query: the trace is voided when the driver itself let a group idle too long
-	Span   int               `json:"span"`       // rows of one group are at most this many positions apart
-	MaxGap int64             `json:"max_gap_ms"` // real-time scenarios: two rows handed in one after the other (no sleep between them) must not be further apart; else the trace is void
-	Reuse  bool              `json:"reuse"`      // the producer re-uses ONE map object for all its rows (cleared and refilled before each call)
-	Conc   bool              `json:"conc"`       // JOIN scenarios: table updates run in a goroutine of their own, concurrently with EmitSync callers
-	Seed   int64             `json:"seed"`
-	ColMap map[string]string `json:"colmap"` // data columns handed to the engine under other names (orig -> new); the trace keeps the original names
+	Tr         int               `json:"tr"`
+	Meta       map[string]any    `json:"meta"` // copied onto the reset line for the TLA+ monitor
+	SQL        string            `json:"sql"`
+	Mode       string            `json:"mode"`    // emit (default) | sync
+	Rows       []map[string]any  `json:"rows"`    // typed input rows (see Decode)
+	MaxPar     int               `json:"maxpart"` // WithAnalyticMaxPartitions when > 0
+	Chan       bool              `json:"chan"`    // also read ToChannel()
+	Stop       bool              `json:"stop"`    // call Stop before the quiesce event (CEP flush)
+	Sort       string            `json:"sort"`    // sort delivered rows of a batch by this column (when the statement leaves order open)
+	Tables     []SeqTable        `json:"tables"`
+	Burst      bool              `json:"burst"`      // emit every row without waiting in between (ordering / conservation); quiesce once at the end
+	Hold       string            `json:"hold"`       // burst only: name of a hook point at which the engine goroutine is held until every row has been handed in
+	Perf       *SeqPerf          `json:"perf"`       // custom performance configuration
+	Ops        []SeqOp           `json:"ops"`        // optional explicit operation list (JOIN scenarios); when empty: emit every row
+	GapMs      int64             `json:"gap_ms"`     // STATETTL scenarios: real-time pause before every row
+	TTLMs      int64             `json:"ttl_ms"`     // STATETTL of the query: the trace is voided when the driver itself let a group idle too long
+	Span       int               `json:"span"`       // rows of one group are at most this many positions apart
+	MaxGap     int64             `json:"max_gap_ms"` // real-time scenarios: two rows handed in one after the other (no sleep between them) must not be further apart; else the trace is void
+	Reuse      bool              `json:"reuse"`      // the producer re-uses ONE map object for all its rows (cleared and refilled before each call)
+	Conc       bool              `json:"conc"`       // JOIN scenarios: table updates run in a goroutine of their own, concurrently with EmitSync callers
+	Seed       int64             `json:"seed"`
+	PrintTable bool              `json:"printtable"` // PrintTable() switched on next to the other consumers (it is a sink like any other: it only reads)
+	ColMap     map[string]string `json:"colmap"`     // data columns handed to the engine under other names (orig -> new); the trace keeps the original names
 }
 
 // SeqPerf selects buffer sizes and the overflow strategy.
@@ -224,6 +225,9 @@ func RunSeq(sc SeqScenario) (evs []Ev, inconclusive string) {
 		in.events = append(in.events, Ev{"tr": sc.Tr, "e": "out", "rows": rows})
 		in.mu.Unlock()
 	})
+	if sc.PrintTable {
+		s.PrintTable()
+	}
 	chDone := make(chan struct{})
 	if sc.Chan {
 		ch := s.ToChannel()
@@ -422,6 +426,9 @@ func RunSeq(sc SeqScenario) (evs []Ev, inconclusive string) {
 		s.Stop()
 		stopped = true
 		in.Log(Ev{"tr": sc.Tr, "e": "stopped"})
+	}
+	if sc.PrintTable {
+		time.Sleep(150 * time.Millisecond) // the asynchronous table printer has worked off its tasks
 	}
 	// C20: caller maps untouched; delivered rows not altered afterwards
 	for _, h := range handed {
